@@ -902,7 +902,9 @@ where
                         self.elem_format_code = Some(format_code);
 
                         // Account for offset
-                        let len = len - OFFSET_ARRAY8;
+                        let len = len
+                            .checked_sub(OFFSET_ARRAY8)
+                            .ok_or(Error::InvalidValue)?;
                         // let buf = self.reader.read_bytes(len)?;
 
                         visitor.visit_seq(ArrayAccess::new(self, len, count))
@@ -933,7 +935,9 @@ where
                         self.elem_format_code = Some(format_code);
 
                         // Account for offset
-                        let len = len - OFFSET_ARRAY32;
+                        let len = len
+                            .checked_sub(OFFSET_ARRAY32)
+                            .ok_or(Error::InvalidValue)?;
                         // let buf = self.reader.read_bytes(len)?;
 
                         visitor.visit_seq(ArrayAccess::new(self, len, count))
@@ -958,7 +962,9 @@ where
                     as usize;
 
                 // Account for offset
-                let len = len - OFFSET_LIST8;
+                let len = len
+                    .checked_sub(OFFSET_LIST8)
+                    .ok_or(Error::InvalidValue)?;
 
                 // Make sure there is no other element format code
                 self.elem_format_code = None;
@@ -979,7 +985,9 @@ where
                 }
 
                 // Account for offset
-                let len = len - OFFSET_LIST32;
+                let len = len
+                    .checked_sub(OFFSET_LIST32)
+                    .ok_or(Error::InvalidValue)?;
 
                 // Make sure there is no other element format code
                 self.elem_format_code = None;
@@ -1017,7 +1025,9 @@ where
                     as usize;
 
                 // Account for offset
-                let size = size - OFFSET_LIST8;
+                let size = size
+                    .checked_sub(OFFSET_LIST8)
+                    .ok_or(Error::InvalidValue)?;
 
                 // Make sure there is no other element format code
                 self.elem_format_code = None;
@@ -1030,7 +1040,9 @@ where
                 let count = u32::from_be_bytes(count_bytes) as usize;
 
                 // Account for offset
-                let size = size - OFFSET_LIST32;
+                let size = size
+                    .checked_sub(OFFSET_LIST32)
+                    .ok_or(Error::InvalidValue)?;
 
                 // Make sure there is no other element format code
                 self.elem_format_code = None;
@@ -1067,7 +1079,9 @@ where
                     as usize;
 
                 // Account for offset
-                let size = size - OFFSET_MAP8;
+                let size = size
+                    .checked_sub(OFFSET_MAP8)
+                    .ok_or(Error::InvalidValue)?;
 
                 (size, count)
             }
@@ -1086,7 +1100,9 @@ where
                 }
 
                 // Account for offset
-                let size = size - OFFSET_MAP32;
+                let size = size
+                    .checked_sub(OFFSET_MAP32)
+                    .ok_or(Error::InvalidValue)?;
 
                 (size, count)
             }
